@@ -322,6 +322,7 @@ package tcell
 //@           decreases len(b) - rangeindex
 //@   loop 2: invariant [consume] -1 <= i && buf.off + i + 1 == old(buf.off) + n0 && bufwf(buf) && len(buf.buf) == old(len(buf.buf)) && buf.buf == old(buf.buf)
 //@           decreases i + 1
+//@   modifies buf.off, buf.lastRead, evs
 
 // SGR (1006) report: (ESC [ | 0x9b) < B ; X ; Y (M|m), each field an optional '-' followed by decimal digits.
 // Ghost positions: hd = index of '<', s1/s2 = indices of the two ';', fs = start of the field being read.
@@ -381,6 +382,7 @@ package tcell
 //@   loop 2: invariant [consume] -1 <= i && bufwf(buf) && buf.buf == old(buf.buf) && len(*evs) == old(len(*evs)) && buf.off + i == old(buf.off) + ge
 //@           invariant [btn] btn == gbtn
 //@           decreases i + 1
+//@   modifies buf.off, buf.lastRead, evs, t.buttondn
 
 // ---------------------------------------------------------------------------
 // C03: NewEventKey normalises control runes (bit-exact, all 16/32-bit inputs)
@@ -391,7 +393,7 @@ package tcell
 //@   ensures [plain] !(k == KeyRune && (ch < ' ' || ch == 0x7f)) ==> result.key == k && result.mod == mod && result.ch == ch
 //@   ensures [control] k == KeyRune && 0 <= ch && ch < ' ' ==> result.key == Key(ch) && result.ch == ch &&
 //@              result.mod == ((mod == ModNone && ch != 8 && ch != 9 && ch != 13 && ch != 27) ? ModCtrl : mod)
-//@   ensures [negative] k == KeyRune && ch < 0 ==> result.key == Key(ch) && result.ch == ch
+//@   ensures [negative] k == KeyRune && ch < 0 ==> result.key == Key(ch) && result.ch == ch && result.mod == nekMod(k, ch, mod)
 //@   ensures [del] k == KeyRune && ch == 0x7f ==> result.key == KeyBackspace2 && result.mod == mod && result.ch == ch
 //@   ensures [nonnil] result != nil
 
@@ -453,3 +455,225 @@ package tcell
 //@   channel Screen Mutex
 //@   initfuncs Init NewSimulationScreen
 //@   entry InjectKeyBytes InjectKey InjectMouse GetContents GetCursor GetTitle GetClipboardData
+
+// ---------------------------------------------------------------------------
+// C18: SimulationScreen is a faithful test double
+// ---------------------------------------------------------------------------
+
+// postEvent never drops: it blocks until the event is queued or the screen is shutting down.
+//@ func (*simscreen).postEvent
+//@   arith math
+//@   calls [never-drops] call("*select:nonblocking", a) ==> false
+//@   ensures [one-select] calls("*select:blocking:send:evch,recv:quit") == 1
+//@   calls [same-event] call("*selsend:evch", sent) ==> sent == ev
+//@   modifies nothing
+
+// what NewEventKey stores (its own contract, C03, as spec functions)
+//@ spec nekKey(k Key, ch rune) Key = (k == KeyRune && (ch < ' ' || ch == 0x7f)) ? Key(ch) : k
+//@ spec nekMod(k Key, ch rune, mod ModMask) ModMask =
+//@     (k == KeyRune && ch < ' ' && mod == ModNone && Key(ch) != KeyBackspace && Key(ch) != KeyTab && Key(ch) != KeyEsc && Key(ch) != KeyEnter) ? ModCtrl : mod
+
+//@ func (*simscreen).InjectKey
+//@   arith bv
+//@   ensures [one] calls(postEvent) == 1
+//@   calls [event] call(postEvent, recv, pev, ret) ==>
+//@        asptr(pev, "EventKey").key == nekKey(key, r) && asptr(pev, "EventKey").ch == r && asptr(pev, "EventKey").mod == nekMod(key, r, mod)
+//@   modifies nothing
+
+//@ func (*simscreen).InjectMouse
+//@   arith bv
+//@   ensures [one] calls(postEvent) == 1
+//@   calls [event] call(postEvent, recv, pev, ret) ==>
+//@        asptr(pev, "EventMouse").x == x && asptr(pev, "EventMouse").y == y && asptr(pev, "EventMouse").btn == buttons && asptr(pev, "EventMouse").mod == mod
+//@   modifies nothing
+
+// the cursor query reflects ShowCursor: visible exactly when the requested position is on the screen
+//@ func (*simscreen).showCursor
+//@   arith math
+//@   ensures [vis] s.cursorvis == (s.cursorx >= 0 && s.cursory >= 0 && s.cursorx < s.physw && s.cursory < s.physh)
+//@   modifies s.cursorvis
+
+//@ func (*simscreen).ShowCursor
+//@   arith math
+//@   ensures [pos] s.cursorx == x && s.cursory == y
+//@   ensures [vis] s.cursorvis == (x >= 0 && y >= 0 && x < s.physw && y < s.physh)
+//@   modifies s.cursorx, s.cursory, s.cursorvis, s.Mutex
+
+//@ func (*simscreen).GetCursor
+//@   arith math
+//@   ensures result0 == s.cursorx && result1 == s.cursory && result2 == s.cursorvis
+//@   modifies s.Mutex
+
+// resize (called by Show/Sync under the lock): brings the logical buffer to the physical size and announces it.
+//@ func (*simscreen).resize
+//@   arith math
+//@   requires cbwf(&s.back) && s.physw >= 0 && s.physh >= 0
+//@   let differ = !(s.physw == s.back.w && s.physh == s.back.h)
+//@   ensures [sized] s.back.w == s.physw && s.back.h == s.physh && cbwf(&s.back)
+//@   ensures [event] differ ==> calls(postEvent) == 1
+//@   ensures [quiet] !differ ==> calls(postEvent) == 0
+//@   ensures [kept] !differ ==> shapeKept(&s.back, old(s.back.w), old(s.back.h), old(s.back.cells))
+//@   calls [event-size] call(postEvent, recv, pev, ret) ==> asptr(pev, "EventResize").ws.Width == s.physw && asptr(pev, "EventResize").ws.Height == s.physh
+//@   modifies s.back.w, s.back.h, s.back.cells
+
+// SetSize: the overlapping region of the physical cells is preserved, the cursor is reset, and the application gets
+// a resize event with the new size - posted at once, or left pending for the next Show (resize() posts it when the
+// logical buffer still has the old size).
+//@ func (*simscreen).SetSize
+//@   arith math
+//@   requires w >= 0 && h >= 0 && s.physw >= 0 && s.physh >= 0 && len(s.front) == s.physw*s.physh && cbwf(&s.back)
+//@   let settled = s.back.w == s.physw && s.back.h == s.physh
+//@   let changed = !(w == s.physw && h == s.physh)
+//@   ensures [shape] s.physw == w && s.physh == h && len(s.front) == w*h
+//@   ensures [overlap] forall col int, row int :: 0 <= col && col < w && col < old(s.physw) && 0 <= row && row < h && row < old(s.physh) ==>
+//@              s.front[row*w+col] == old(s.front[row*s.physw+col])
+//@   ensures [cursor] s.cursorx == -1 && s.cursory == -1
+//@   ensures [resize-event] settled && changed ==> calls(postEvent) + calls(resize) == 1 || !(s.physw == s.back.w && s.physh == s.back.h)
+//@   loop 1: invariant [r] 0 <= row && len(newc) == w*h && fresh(newc) && !isNil(newc) && len(s.front) == s.physw*s.physh
+//@           invariant [frame] s.physw == old(s.physw) && s.physh == old(s.physh) && s.front == old(s.front)
+//@           invariant [rows] forall cc int, rr int :: 0 <= cc && cc < w && cc < s.physw && 0 <= rr && rr < row && rr < s.physh ==> newc[rr*w+cc] == s.front[rr*s.physw+cc]
+//@           decreases h - row
+//@   loop 1.1: invariant [c] 0 <= col && 0 <= row && row < h && row < s.physh && len(newc) == w*h && fresh(newc) && !isNil(newc) && len(s.front) == s.physw*s.physh
+//@           invariant [frame] s.physw == old(s.physw) && s.physh == old(s.physh) && s.front == old(s.front)
+//@           invariant [rows] forall cc int, rr int :: 0 <= cc && cc < w && cc < s.physw && 0 <= rr && rr < row && rr < s.physh ==> newc[rr*w+cc] == s.front[rr*s.physw+cc]
+//@           invariant [row] forall cc int :: 0 <= cc && cc < col && cc < w && cc < s.physw ==> newc[row*w+cc] == s.front[row*s.physw+cc]
+//@           decreases w - col
+//@   modifies s.front, s.physw, s.physh, s.cursorx, s.cursory, s.back.w, s.back.h, s.back.cells, s.Mutex
+
+// InjectKeyBytes: a byte is declared undecodable only after EVERY prefix length 1..len(b) has been offered to the
+// decoder (a multi-byte character at the very end included); ghost `offered` counts the prefixes offered in the
+// current attempt, ghost `short` records an attempt that gave up early.  Printable ASCII and control bytes
+// are posted as the property says; events are posted in input order (sequential code).
+//@ func (*simscreen).InjectKeyBytes
+//@   arith bv
+//@   requires !isNil(s.decoder)
+//@   ghost entry: short = false
+//@   ghost entry: offered = 0
+//@   ghost loop-entry:1.1: offered = 0
+//@   ghost loop-end:1.1: offered = l - 1
+//@   ghost loop-done:1.1: short = short || offered < len(b)
+//@   ensures [all-prefixes] !short
+//@   loop 1:
+//@     invariant [nb] !short
+//@     decreases len(b)
+//@   loop 1.1:
+//@     invariant [l] 1 <= l && offered == l - 1 && !short && len(b) >= 1
+//@     decreases len(b) + 1 - l
+//@   modifies nothing
+
+// drawCell of the simulator: a changed cell that lies on the physical screen is copied to `front` with its runes
+// (main + combining, a fresh slice), the resolved style, and - per rune - the bytes the charset's encoder gave, or,
+// ONLY while nothing has been emitted for the cell, the registered fallback, the rune itself when printable ASCII,
+// or '?'; an unencodable combining rune is elided (the fallback rules of the terminfo screen, C17, minus ACS).
+// A wide rune that does not fit before the right edge is shown as a blank.
+//@ spec simShownMain(c cell) rune = (c.width == 0 || c.currMain < ' ') ? ' ' : c.currMain
+//@ spec simShownWidth(c cell) int = (c.width == 0 || c.currMain < ' ') ? 1 : c.width
+//@ pred simAccepts(n int, first byte) = n != 0 && first != 0x1a
+
+//@ func (*simscreen).drawCell
+//@   arith math
+//@   requires cbwf(&s.back) && s.physw >= 0 && s.physh >= 0 && len(s.front) == s.physw*s.physh && !isNil(s.encoder)
+//@   requires [widths] forall k int :: 0 <= k && k < len(s.back.cells) ==> s.back.cells[k].width >= 0
+//@   let bi = y*s.back.w + x
+//@   let fi = y*s.physw + x
+//@   let c0 = s.back.cells[y*s.back.w + x]
+//@   let inb = inRange(&s.back, x, y)
+//@   let act = inRange(&s.back, x, y) && isDirty(s.back.cells[y*s.back.w + x]) && x >= 0 && y >= 0 && x < s.physw && y < s.physh
+//@   let wide = x > s.physw - simShownWidth(s.back.cells[y*s.back.w + x])
+//@   let st0 = s.back.cells[y*s.back.w + x].currStyle == StyleDefault ? s.style : s.back.cells[y*s.back.w + x].currStyle
+//@   ghost entry: gB = s.clipboard
+//@   ghost loop-entry:1: gB = s.front[y*s.physw + x].Bytes
+//@   ghost loop-end:1: gB = s.front[y*s.physw + x].Bytes
+//@   ensures [width] result == (inb ? simShownWidth(c0) : 0)
+//@   ensures [skip-front] !act ==> forall k int :: 0 <= k && k < len(s.front) ==> s.front[k] == old(s.front[k])
+//@   ensures [skip-back] !act || wide ==> forall k int :: 0 <= k && k < len(s.back.cells) ==> s.back.cells[k] == old(s.back.cells[k])
+//@   ensures [others] forall k int :: 0 <= k && k < len(s.front) && k != fi ==> s.front[k] == old(s.front[k])
+//@   ensures [style] act ==> s.front[fi].Style == st0
+//@   ensures [runes] act && !wide ==> len(s.front[fi].Runes) == 1 + len(c0.currComb) && s.front[fi].Runes[0] == simShownMain(c0) &&
+//@              (forall j int :: 0 <= j && j < len(c0.currComb) ==> s.front[fi].Runes[1+j] == c0.currComb[j])
+//@   ensures [blank] act && wide ==> len(s.front[fi].Runes) == 1 && s.front[fi].Runes[0] == ' ' && len(s.front[fi].Bytes) == 1 && s.front[fi].Bytes[0] == ' '
+//@   ensures [cleaned] act && !wide ==> !isDirty(s.back.cells[bi])
+//@   ensures [width-kept] inb ==> s.back.cells[bi].width == old(s.back.cells[bi].width)
+//@   ensures [width-pos] inb ==> result >= 1
+//@   ensures [inrange] inb ==> 0 <= bi && bi < len(s.back.cells)
+//@   ensures [main-kept] inb && old(s.back.cells[bi].currMain) != 0 ==> s.back.cells[bi].currMain == old(s.back.cells[bi].currMain)
+//@   ensures [back-others] forall k int :: 0 <= k && k < len(s.back.cells) && k != bi ==> s.back.cells[k] == old(s.back.cells[k])
+//@   ensures [shape] shapeKept(&s.back, old(s.back.w), old(s.back.h), old(s.back.cells)) && len(s.front) == old(len(s.front)) && s.physw == old(s.physw) && s.physh == old(s.physh)
+//@   calls [encoded] call(Transform, recv, pdst, psrc, peof, ret) ==> simAccepts(ret.0, pdst[0]) ==> appendedBytes(s.front[fi].Bytes, gB, pdst, ret.0)
+//@   calls [fallback] call(Transform, recv, pdst, psrc, peof, ret) ==> !simAccepts(ret.0, pdst[0]) && len(gB) == 0 && has(s.fallback, r) ==> appendedStr(s.front[fi].Bytes, gB, s.fallback[r])
+//@   calls [ascii] call(Transform, recv, pdst, psrc, peof, ret) ==> !simAccepts(ret.0, pdst[0]) && len(gB) == 0 && !has(s.fallback, r) && r >= ' ' && r <= '~' ==>
+//@              len(s.front[fi].Bytes) == 1 && s.front[fi].Bytes[0] == byte(r)
+//@   calls [question] call(Transform, recv, pdst, psrc, peof, ret) ==> !simAccepts(ret.0, pdst[0]) && len(gB) == 0 && !has(s.fallback, r) && !(r >= ' ' && r <= '~') ==> appendedStr(s.front[fi].Bytes, gB, "?")
+//@   calls [elided] call(Transform, recv, pdst, psrc, peof, ret) ==> !simAccepts(ret.0, pdst[0]) && len(gB) != 0 ==> sameslice(s.front[fi].Bytes, gB)
+//@   loop 1:
+//@     invariant [idx] -1 <= rangeindex && act && !wide
+//@     invariant [shape] cbwf(&s.back) && shapeKept(&s.back, old(s.back.w), old(s.back.h), old(s.back.cells)) && len(s.front) == old(len(s.front)) && s.physw == old(s.physw) && s.physh == old(s.physh) && s.front == old(s.front)
+//@     invariant [gB] sameslice(gB, s.front[y*s.physw + x].Bytes) && (len(gB) == 0 ==> isNil(gB))
+//@     invariant [others] forall k int :: 0 <= k && k < len(s.front) && k != fi ==> s.front[k] == old(s.front[k])
+//@     invariant [style] s.front[fi].Style == st0
+//@     invariant [runes] len(s.front[fi].Runes) == 1 + len(c0.currComb) && s.front[fi].Runes[0] == simShownMain(c0) &&
+//@              (forall j int :: 0 <= j && j < len(c0.currComb) ==> s.front[fi].Runes[1+j] == c0.currComb[j])
+//@     invariant [back] forall k int :: 0 <= k && k < len(s.back.cells) ==> s.back.cells[k] == old(s.back.cells[k])
+//@     decreases len(s.front[fi].Runes) - rangeindex
+//@   modifies s.front[*], s.back.cells[*]
+
+// What a physical cell shows for a logical cell: resolved style, main rune followed by the combining runes.
+//@ pred simView(f SimCell, c cell, def Style) = f.Style == (c.currStyle == StyleDefault ? def : c.currStyle) &&
+//@        len(f.Runes) == 1 + len(c.currComb) && f.Runes[0] == simShownMain(c) &&
+//@        (forall j int :: 0 <= j && j < len(c.currComb) ==> f.Runes[1+j] == c.currComb[j])
+//@ pred simNarrow(c cell) = c.width == 1 && c.currMain >= ' '
+
+//@ func (*simscreen).hideCursor
+//@   arith math
+//@   ensures !s.cursorvis
+//@   modifies s.cursorvis
+
+//@ func (*simscreen).clearScreen
+//@   arith math
+//@   ensures [flag] !s.clear && len(s.front) == old(len(s.front))
+//@   loop 1:
+//@     invariant [i] -1 <= rangeindex && len(s.front) == old(len(s.front)) && s.front == old(s.front)
+//@     decreases len(s.front) - rangeindex
+//@   modifies s.front[*], s.clear
+
+// draw (Show/Sync call it after resize, so the logical and physical sizes agree): every drawCell call is for a cell
+// of the screen (what drawCell shows for it is drawCell's contract); in a buffer without wide cells every cell is
+// visited and clean afterwards; the cursor flag reflects the requested position.
+//@ func (*simscreen).draw
+//@   arith math
+//@   opt nosplit ahead,widths
+//@   requires cbwf(&s.back) && s.physw == s.back.w && s.physh == s.back.h && len(s.front) == s.physw*s.physh && !isNil(s.encoder)
+//@   requires [widths] forall k int :: 0 <= k && k < len(s.back.cells) ==> s.back.cells[k].width >= 0
+//@   let an0 = forall k int :: 0 <= k && k < len(s.back.cells) ==> simNarrow(s.back.cells[k])
+//@   ensures [clean-narrow] an0 ==> forall k int :: 0 <= k && k < len(s.back.cells) ==> !isDirty(s.back.cells[k])
+//@   calls [visit] call(drawCell, recv, px, py, ret) ==> 0 <= px && px < s.back.w && 0 <= py && py < s.back.h
+//@   ensures [cursor] s.cursorvis == (s.cursorx >= 0 && s.cursory >= 0 && s.cursorx < s.physw && s.cursory < s.physh)
+//@   ensures [shape] shapeKept(&s.back, old(s.back.w), old(s.back.h), old(s.back.cells)) && len(s.front) == old(len(s.front)) && !s.clear
+//@   loop 1:
+//@     invariant [y] 0 <= y && w == s.back.w && h == s.back.h
+//@     invariant [shape] cbwf(&s.back) && shapeKept(&s.back, old(s.back.w), old(s.back.h), old(s.back.cells)) && len(s.front) == old(len(s.front)) && s.physw == s.back.w && s.physh == s.back.h && !s.clear && s.front == old(s.front)
+//@     invariant [widths] forall k int :: 0 <= k && k < len(s.back.cells) ==> s.back.cells[k].width >= 0
+//@     invariant [ahead] forall k int :: y*s.back.w <= k && k < len(s.back.cells) ==> s.back.cells[k] == old(s.back.cells[k])
+//@     invariant [narrow] an0 ==> forall k int :: 0 <= k && k < len(s.back.cells) ==> simNarrow(s.back.cells[k])
+//@     invariant [done] an0 ==> y <= h && (forall k int :: 0 <= k && k < y*s.back.w ==> !isDirty(s.back.cells[k]))
+//@     decreases h - y
+//@   loop 1.1:
+//@     invariant [x] 0 <= x && 0 <= y && y < h && w == s.back.w && h == s.back.h
+//@     invariant [shape] cbwf(&s.back) && shapeKept(&s.back, old(s.back.w), old(s.back.h), old(s.back.cells)) && len(s.front) == old(len(s.front)) && s.physw == s.back.w && s.physh == s.back.h && !s.clear && s.front == old(s.front)
+//@     invariant [widths] forall k int :: 0 <= k && k < len(s.back.cells) ==> s.back.cells[k].width >= 0
+//@     invariant [ahead] forall k int :: (y*s.back.w + x <= k || (y+1)*s.back.w <= k) && k < len(s.back.cells) ==> s.back.cells[k] == old(s.back.cells[k])
+//@     invariant [narrow] an0 ==> forall k int :: 0 <= k && k < len(s.back.cells) ==> simNarrow(s.back.cells[k])
+//@     invariant [done] an0 ==> x <= w && (forall k int :: 0 <= k && k < y*s.back.w + x ==> !isDirty(s.back.cells[k]))
+//@     decreases w - x
+//@   modifies s.front[*], s.back.cells[*], s.clear, s.cursorvis
+
+// Show with no resize pending: one frame under the lock (draw's guarantees), no event.
+//@ func (*simscreen).Show
+//@   arith math
+//@   requires cbwf(&s.back) && s.physw == s.back.w && s.physh == s.back.h && s.physw >= 0 && s.physh >= 0 && len(s.front) == s.physw*s.physh && !isNil(s.encoder)
+//@   requires [widths] forall k int :: 0 <= k && k < len(s.back.cells) ==> s.back.cells[k].width >= 0
+//@   let an0 = forall k int :: 0 <= k && k < len(s.back.cells) ==> simNarrow(s.back.cells[k])
+//@   ensures [clean-narrow] an0 ==> forall k int :: 0 <= k && k < len(s.back.cells) ==> !isDirty(s.back.cells[k])
+//@   ensures [cursor] s.cursorvis == (s.cursorx >= 0 && s.cursory >= 0 && s.cursorx < s.physw && s.cursory < s.physh)
+//@   ensures [once] calls(draw) == 1 && calls(resize) == 1
+//@   modifies s.front[*], s.back.cells[*], s.back.w, s.back.h, s.back.cells, s.clear, s.cursorvis, s.Mutex
